@@ -268,7 +268,13 @@ macro_rules! with_mapper {
 impl Env {
     pub fn exec(&self, op: &Op) -> Out {
         let mut alloc = self.arena.allocator();
+        crate::util::fault_means(
+            "C09",
+            format!("{}|{}|fatal-fault-in-mapper-code(access-outside-simulated-physical-memory)", self.kind.name(), op.name()),
+            J::obj(vec![("impl", J::s(self.kind.name())), ("env", J::s(self.desc.clone())), ("op", op.to_json()), ("history_tail", J::A(self.history[self.history.len().saturating_sub(30)..].to_vec()))]),
+        );
         let r = catch_msg(|| with_mapper!(self, |m| exec_on(&mut m, op, &mut alloc)));
+        crate::util::fault_means_nothing();
         match r {
             Ok(o) => o,
             Err(msg) => Out::Panic(msg),
@@ -1034,6 +1040,7 @@ fn check_cleanup(env: &mut Env, op: &Op, pre: &Dump, post: &Dump, log: &[crate::
     }
     // translations unchanged
     if leaves_of(pre) != leaves_of(post) {
+        viol(rep, env, "C01", format!("{}|{}|translation-changed-by-clean-up", kname, opn), op, vec![]);
         viol(rep, env, "C10", format!("{}|{}|translation-changed", kname, opn), op, vec![]);
         bad = true;
     }
@@ -1219,6 +1226,8 @@ pub fn restore(env: &mut Env, s: Saved) {
 }
 
 pub fn run(a: &Args, rep: &mut Report, focus: &str) {
+    #[cfg(not(miri))]
+    crate::trapemu::install();
     let mut r = Rng::derive(a.seed, &format!("paging-{}", focus), a.shard);
     let under_miri = cfg!(miri);
     let histories = if under_miri { a.get_u64("histories", 2) } else { a.budget(if focus == "c02" { 250 } else { 500 }, if focus == "c02" { 120_000 } else { 250_000 }) };
